@@ -267,17 +267,17 @@ func c06Window(tier string, seed int64, idx int, scratch string) rt.CaseResult {
 	tr := conc.NewTracer(true)
 	tr.Install()
 	defer conc.Uninstall()
-	if idx%3 == 2 {
+	if idx%4 == 2 {
 		return c06StoreWindow(seed, idx, env, tr)
 	}
-	window := []string{"get.lookup<overwrite+collect<get.open", "getkeys.files<overwrite+collect<content-record-lookup"}[idx%2]
+	wi := map[int]int{0: 0, 1: 1, 3: 2}[idx%4]
+	window := []string{"get.lookup<overwrite+collect<get.open", "getkeys.files<overwrite+collect<content-record-lookup", "get.content-record<overwrite+collect<get.open"}[wi]
 	tag := fmt.Sprintf("w%d-", idx)
 	p := program{Keys: []string{"k", "other"}, Init: []progOp{{Kind: "set", Tx: -1, Key: "k", Tag: tag + "v0", Len: 30}, {Kind: "set", Tx: -1, Key: "other", Tag: tag + "o", Len: 10}}}
 	reader := []progOp{{Kind: "get", Tx: -1, Key: "k"}}
-	waitPoint := "store.get.lookup"
-	if idx%2 == 1 {
+	waitPoint := []string{"store.get.lookup", "store.getkeys.files", "store.get.cf"}[wi]
+	if wi == 1 {
 		reader = []progOp{{Kind: "getkeys", Tx: -1}}
-		waitPoint = "store.getkeys.files"
 	}
 	writer := []progOp{{Kind: "sleep", Len: 2000}, {Kind: "set", Tx: -1, Key: "k", Tag: tag + "v1", Len: 30}, {Kind: "collect", Tx: -1}}
 	p.Clients = [][]progOp{reader, writer}
